@@ -303,6 +303,8 @@ pub fn run_imp(xml: &str, names: &[String]) -> Vec<String> {
 const PIN_NAMES: &[&str] = &[
     "A", "B", "C", "CLK", "D", "S", "Q", "Y", "C_out", "S_out", "BUS", "ALU-~RESET", "é", "Q2", "Bits", "Label", "InDefault",
     "Testdata", "In", "Out", "string", "D_out",
+    // blanks that are NOT among the five the header scanner splits at: part of the name
+    "N\u{a0}B", "\u{3000}W", "L\u{2028}S", "K\u{85}",
 ];
 
 pub fn gen_circuit(r: &mut Prng) -> Circuit {
